@@ -10,7 +10,7 @@ class C04(core.Prop):
     lean_modules = ['TddaVerif.Props.C04']
     theorems = ['TddaVerif.Props.C04.' + t for t in ['checkPatterns_sound', 'checkPatterns_complete', 'lineOKb_iff',
         'check_pass_iff', 'identical_passes', 'different_length_fails', 'unexcused_difference_fails', 'sorted_eq_iff_perm']]
-    quick_n = 600
+    quick_n = 1800
     thorough_n = 30000
     rule = ('cases: reference text of 0..6 lines from a pool (digits, versions, dates, blanks, unicode, leading/'
             'trailing blanks) and an actual text derived by 0..3 near-miss edits (char change, number change, '
